@@ -39,6 +39,13 @@ def classify(nn, site, atom, pol, dinfo):
                 return ("struct", "singleton-skip")
             return ("unknown", "candidate lists are filtered by length")
         if op in ("<", "<=", ">", ">="):
+            # rapidfuzz: distance(a, b, score_cutoff=c) is the distance when it is <= c and c + 1 otherwise, so (d_cut <= c) == (d <= c), (d_cut > c) == (d > c)
+            for u, v, o_ in ((x, y, op), (y, x, _FLIP[op])):
+                if head(u) == "call" and len(u[3]) == 1 and u[3][0][0] == "score_cutoff" and strip(u[3][0][1]) == v and o_ in ("<=", ">") and strip(u[1]) in (LEV, HAM):
+                    if u is x:
+                        x = ("call", u[1], u[2], ())
+                    else:
+                        y = ("call", u[1], u[2], ())
             dx = dinfo if (dinfo is not None and x == strip(site.d)) else nn.dist_of(q, x, None)
             dy = dinfo if (dinfo is not None and y == strip(site.d)) else nn.dist_of(q, y, None)
             if dx is None and dy is not None:
@@ -160,6 +167,15 @@ def check_site(r, rule, nn, site, mode, spaceA, spaceB, self_policy, equal_lengt
         if not by_construction:
             # an assertion is the author's stated belief; a false one raises AssertionError (a loud failure), it never drops or adds a pair silently
             rep.assume(f"assertions in {q.rsplit('.', 1)[1]} are taken to hold (a failing assert raises; it cannot silently change the reported pairs)")
+    # ---- truncating scans (itertools.takewhile) in the worker's pipeline
+    pl = site.extra.get("pipeline") or {}
+    for pred, pos in pl.get("takewhile", []):
+        ok_tw, why_tw = _takewhile_sound(pl, pred, pos)
+        if ok_tw is None:
+            rep.require(False, f"{q}:{site.line}: takewhile stage {why_tw}; whether it drops a neighbour cannot be decided [{rule}-FGA]")
+        else:
+            rep.ob(rule + "-FGA", con, ok_tw, "a scan that stops at the first rejected candidate drops nothing that a filter would keep", where,
+                   expected="takewhile over candidates sorted (ascending) by the single quantity its predicate bounds from above", found=why_tw, key=f"{K} takewhile")
     # ---- classify guards
     thr, selfs, unknown, lenf = [], [], [], []
     for atom, pol in site.guards:
@@ -244,6 +260,50 @@ def check_site(r, rule, nn, site, mode, spaceA, spaceB, self_policy, equal_lengt
         rep.ob(rule + "-FGA", con, bool(unflagged) or site.extra.get("self_excluded"), "a position is never reported as its own neighbour", where, expected="i != j filter before the distance stage",
                found="present" if (unflagged or site.extra.get("self_excluded")) else "missing", key=f"{K} self-exclusion present")
     return dinfo
+
+
+def _takewhile_sound(pl, pred, pos):
+    """takewhile(pred, X) == filter(pred, X) iff the rejected elements form a suffix of X: X sorted ascending by a key k and pred a function of k alone
+    that is downward closed (k <= c / k < c).  Returns (True | False | None, explanation)."""
+    order = pl["order"]
+    pred = strip(pred)
+    if head(pred) != "lam" or len(pred[2]) != 1:
+        return None, "has a predicate that is not a local function / lambda"
+    if pos + 1 >= len(order) or order[pos + 1] != "sort":
+        return False, "the scanned candidates are not sorted immediately before the scan"
+    key = strip(pl.get("sortkey")) if pl.get("sortkey") is not None else None
+    kidx = None
+    if key is not None and head(key) == "lam" and len(key[2]) == 1:
+        b = strip(key[3])
+        if head(b) == "sub" and strip(b[1]) == ("lparam", key[1], key[2][0][0]) and is_const(strip(b[2])):
+            kidx = strip(b[2])[2]
+    elif key is not None and is_call(key, "operator.itemgetter") and len(key[2]) == 1 and is_const(strip(key[2][0])):
+        kidx = strip(key[2][0])[2]
+    if kidx is None:
+        return None, "scans candidates sorted by a key outside the idiom list"
+    if pl.get("reverse"):
+        return False, "the candidates are sorted in descending order"
+    x = ("lparam", pred[1], pred[2][0][0])
+    uses = set()
+
+    def visit(t, inside):
+        if not isinstance(t, tuple):
+            return
+        if t == x:
+            uses.add(inside)
+            return
+        if head(t) == "sub" and strip(t[1]) == x and is_const(strip(t[2])):
+            uses.add(strip(t[2])[2])
+            return
+        for y in t:
+            visit(y, inside)
+    visit(pred[3], "whole")
+    if uses - {kidx}:
+        return False, f"the predicate also depends on component(s) {sorted(map(str, uses - {kidx}))} of a candidate, the candidates are sorted by component {kidx} only: candidates after the first rejected one are lost"
+    lts = lits(simplify(strip(pred[3])), True)
+    if all(head(strip(a)) == "cmp" and ((strip(a)[1] in ("<=", "<") and pol) or (strip(a)[1] in (">", ">=") and not pol)) and strip(strip(a)[2]) == ("sub", x, const(kidx)) for a, pol in lts):
+        return True, "sorted ascending by the bounded component"
+    return None, "has a predicate of the sort key that is not a plain upper bound"
 
 
 def _keyed_by_unknown_source(nn, site):
